@@ -425,6 +425,9 @@ func (m *Machine) tick() (bool, error) {
 	case program.OP_SAVE:
 		a := pop[machine.AccountAddress](m)
 		v := m.popValue()
+		if _, ok := m.Balances[a]; !ok {
+			m.Balances[a] = make(map[machine.Asset]*machine.MonetaryInt)
+		}
 		switch v := v.(type) {
 		case machine.Asset:
 			m.Balances[a][v] = machine.Zero
